@@ -478,7 +478,8 @@ def build_matrix(r, snap, static, hist, tier):
         emit({"k": "cl_add", "id": i, "amt": str(a), "amt1": str(a + r.range(0, 99))}, snd)
         emit({"k": "cl_add", "id": i, "amt": "0", "amt1": "0"}, two)
         emit({"k": "cl_add", "id": i, "amt": "-1", "amt1": "5"}, two)
-        emit({"k": "cl_transfer", "ids": [i], "to": r.choice([u for u in users if u != o])}, snd)
+        # the one privileged account is the governance module: every other module account is tried as well
+        emit({"k": "cl_transfer", "ids": [i], "to": r.choice([u for u in users if u != o])}, snd + [x for x in MODULES if x not in snd])
         emit({"k": "cl_transfer", "ids": [i], "to": o}, two + [GOV])
         emit({"k": "cl_collect_spread", "ids": [i]}, snd)
         emit({"k": "cl_collect_incentives", "ids": [i]}, snd)
@@ -526,7 +527,7 @@ def build_matrix(r, snap, static, hist, tier):
         emit({"k": "lk_set_receiver", "id": i, "to": o}, two)
         if l["recv"] >= 0:
             emit({"k": "lk_set_receiver", "id": i, "to": l["recv"]}, two + [l["recv"]])
-        emit({"k": "lk_force_unlock", "id": i}, snd + [a for a in static["allowed"] if a not in snd])
+        emit({"k": "lk_force_unlock", "id": i}, snd + [a for a in static["allowed"] + MODULES if a not in snd])
         if l["amt"] >= 2:
             emit({"k": "lk_force_unlock", "id": i, "den": l["den"], "amt": str(r.range(1, l["amt"] - 1))}, two + static["allowed"])
         emit({"k": "lk_force_unlock", "id": i, "den": l["den"], "amt": str(l["amt"] + 1)}, two + static["allowed"])
